@@ -164,6 +164,28 @@ pub fn state_monitors(h: &Hist, ms: &mut MonState, out: &mut Vec<String>) {
         let total = latest("fm");
         let users: u128 = ["u1", "u2", "u3", "u4", "owner", "out", "pm"].iter().map(|u| latest(u)).sum();
         if total > 0 || users > 0 { out.push(format!("mon_weights {} {} {}", lp, total, users)); }
+        // … and for EVERY epoch: the weight in effect (value of the last snapshot at or before it) of the total covers
+        // the users' weights in effect; checked at every epoch carrying a snapshot of anybody (the functions are
+        // piecewise constant), reported for the worst epoch
+        {
+            let hist = |who: &str| -> Vec<(u64, u128)> { o.users.get(who).and_then(|u| u.1.get(lp)).cloned().unwrap_or_default() };
+            let at = |hh: &Vec<(u64, u128)>, e: u64| -> u128 { hh.iter().filter(|x| x.0 <= e).last().map(|x| x.1).unwrap_or(0) };
+            let names = ["u1", "u2", "u3", "u4", "owner", "out", "pm"];
+            let th = hist("fm");
+            let uhs: Vec<Vec<(u64, u128)>> = names.iter().map(|u| hist(u)).collect();
+            let mut epochs: Vec<u64> = th.iter().map(|x| x.0).collect();
+            for hh in uhs.iter() { epochs.extend(hh.iter().map(|x| x.0)); }
+            epochs.sort(); epochs.dedup();
+            let mut worst: Option<(u64, u128, u128)> = None;
+            for e in epochs {
+                let t = at(&th, e);
+                let us: u128 = uhs.iter().map(|hh| at(hh, e)).sum();
+                // the first epoch where the users exceed the total, otherwise the last epoch
+                let have_bad = matches!(worst, Some((_, wt, wu)) if wu > wt);
+                if !have_bad { worst = Some((e, t, us)); }
+            }
+            if let Some((e, t, us)) = worst { out.push(format!("mon_weights_epoch {} {} {} {}", lp, e, t, us)); }
+        }
         // a user without open positions in an LP token has no weight history and (if no open position at all) no cursor
         for u in ["u1", "u2", "u3", "u4", "owner", "out"] {
             let real = h.w.rd(lp);
